@@ -98,6 +98,12 @@ def resolve_syntatic_sugar(a: ast.AST) -> ast.AST:
             Returns:
                 ast.AST: The reformed AST as a dictionary
             """
+            if any(isinstance(arg, ast.Starred) for arg in a.args):
+                assert isinstance(a.func, ast.Constant)
+                raise ValueError(
+                    f"Starred arguments can not be bound to the fields of dataclass {a.func.value}"
+                    f" - {ast.unparse(node)}."
+                )
             if len(sig_arg_names) < (len(a.args) + len(a.keywords)):
                 assert isinstance(a.func, ast.Constant)
                 raise ValueError(
